@@ -50,6 +50,7 @@ def c01_acceptance(method, n=1):
         h = TB.H0
         symmap = {}
         side = []
+        rep = (None, "", "")
         cz = TB.to_z3(cond.lhs, symmap) <= TB.to_z3(cond.rhs, symmap) if isinstance(cond, sp.LessThan) else None
         if cz is None:
             # generic relational
@@ -76,10 +77,29 @@ def c01_acceptance(method, n=1):
                             sample={"forall": "y, h, k_j, rtol, atol > 0", "obligation": "accepted => |ye_i| <= sqrt(n)(atol_i + rtol_i max(|y_i|,|ynew_i|))"}, timeout_ms=120000)
             if ok is False:
                 failed.append(f"{method}: a step can be accepted although the error estimate of component {i} exceeds sqrt(n)*(atol + rtol*max(|y|,|y_new|))")
+                if rep[0] is not True:
+                    # a robust counterexample (clear margin) for the native replay, falling back to the first model
+                    for margin in (4, 1.5):
+                        s2 = z3.Solver()
+                        s2.set("timeout", 60000)
+                        s2.add(*(pos + list(symmap.get("_side", [])) + [cz, yez * yez > n * bz * bz * z3.RealVal(margin)]))
+                        sm = [v for k_, v in symmap.items() if isinstance(k_, sp.Symbol)]
+                        s2.add(*[z3.And(v > -1000, v < 1000) for v in sm])
+                        if s2.check() == z3.sat:
+                            m = s2.model()
+                            break
+                    from . import replay
+                    byname = {str(k_): v for k_, v in symmap.items() if isinstance(k_, sp.Symbol)}
+                    gv = lambda name, dflt=0.0: replay._zval(m, byname[name]) if name in byname else dflt
+                    values = {"x0": gv("x0", 0.0), "h": gv("h0", 1.0), "y0": [gv(f"y0_{c}") for c in range(n)],
+                              "rtol": [gv("rtol", 1e-3)] if n == 1 else [gv(f"rtol_{c}", 1e-3) for c in range(n)],
+                              "atol": [gv("atol", 1e-6)] if n == 1 else [gv(f"atol_{c}", 1e-6) for c in range(n)],
+                              "k": [[gv(str(outs[c])) for c in range(n)] for (_, _, outs) in p.rec.ode_calls]}
+                    rep = replay.accept_replay(method, n, e, values)
         return _result(f"c01_acceptance_{method.lower()}_n{n}", q, t0, failed,
                        {"functions": [f"{method}::solve error-estimation block and accept test"], "bounds": f"n={n}; exact real arithmetic; all y,h,k, positive tolerances",
                         "trusted_base": ["local error control + order => tolerance-proportional global error (standard theorem, not decided)"]},
-                       replayed=None, replay_src="", replay_log="")
+                       replayed=rep[0], replay_src=rep[1], replay_log=rep[2])
 
     unit.__name__ = f"c01_acceptance_{method.lower()}_n{n}"
     return unit
